@@ -105,8 +105,8 @@ def growth_oracle(ctx, spec, T, seed, kind, args, vol0, r, t0=0.0):
                 # one ulp short of its grid value has not reached it).  Candidates for divT and its float neighbours.
                 ends = set()
                 for dT in (divT - 1e-12, divT, divT + 1e-12):
-                    t = float(T[0])
-                    for _ in range(len(T) + 2):
+                    t = float(t0)           # ticks are counted from the interface's initial time, wherever the grid starts
+                    for _ in range(int(round((float(T[-1]) - float(t0)) / dt)) + 3):
                         t = t + dt
                         if dT > t - dt and dT <= t:
                             break
@@ -265,11 +265,13 @@ def run(ctx):
             args = {"cycle": cyc, "avg": vol0 * rng.choice([1.2, 2.0, 8.0]), "noise": 0.0 if c == 1 else rng.choice([0.05, 0.2])}
             # half of these cells start their life later than t = 0 (a daughter cell, a continued simulation)
             t0 = rng.choice([0.0, 0.0, 7.5, 60.0])
-            corr(ctx, spec, t0 + T, seeds, "stt", args, vol0, safe, t0=t0)
+            # ... and a third of the grids start later than the cell does (the volume has grown in between)
+            off = rng.choice([0.0, 0.0, 2 * dt, 10 * dt]) if math.log(args["avg"] / vol0) / (LN2 / cyc) > 12 * dt else 0.0
+            corr(ctx, spec, t0 + off + T, seeds, "stt", args, vol0, safe, t0=t0)
         else:
             args = {"avg": vol0 * rng.choice([1.5, 3.0]), "noise": rng.choice([0.0, 0.1]),
                     "growth": rng.choice(["0.1", "0.05 + 0.01*A", "0.3*B/(1+B)", "k0/10", "0.02 + 0.01*t"])}
-            corr(ctx, spec, T, seeds, "statedep", args, vol0, safe, sim="delayvolume" if (i // 4) % 2 else "volume")
+            corr(ctx, spec, rng.choice([0.0, 0.0, 5 * dt]) + T, seeds, "statedep", args, vol0, safe, sim="delayvolume" if (i // 4) % 2 else "volume")
     late_born_cells(ctx, rng)
     nruns = 2500 if ctx.quick() else 150000
     for k, V in enumerate([0.25, 2.0, 4.5]):
